@@ -55,6 +55,15 @@ def jobs_for(tier, rnd):
     for c in strat3:
         jobs.append((gid, G.describe(c, 'text'), TX, {'stratum': 'context-depth3'}))
         gid += 1
+    # stratum: regular expressions that match the empty string on their own but can FAIL in context (lookahead, anchors)
+    zw = [('rx', '(?!b)'), ('rx', '$'), ('rx', '(?=a)[ab]*'), ('rx', '(?!a)b?'), ('rx', 'a*$')]
+    for z in zw:
+        for K in G.CONTS:
+            for c in list(G.contexts(z, K)) + [('seq', ('lit', 'a'), z, ('rx', '[abc]')), ('seq', ('lit', 'a'), ('opt', z), ('rx', '[abc]*')),
+                                               ('rep', ('right', z, ('rx', '[abc]')), None, None), ('left', ('rx', '[ab]+'), ('alt', z, ('rx', 'c+')))]:
+                if G.well_formed(c, G.RULES_NULLABLE):
+                    jobs.append((gid, G.describe(c, 'text'), TX, {'stratum': 'zero-width-regex'}))
+                    gid += 1
     # stratum: one pattern text used case-sensitively AND case-insensitively in the same grammar (every literal keeps
     # its own flavour wherever else the same characters occur), text and bytes mode, also across rules
     fl = {}
